@@ -9,8 +9,8 @@ import warnings
 
 from .common import Oracle, Suite, errname, hx, merge
 
-GEN_UNITS = ["Des", "Totp", "Blowfish", "Scrypt", "B64", "Md4", "CryptoDigest"]
-LEAN_TARGETS = ["PasslibVerif.Props.C11", "PasslibVerif.Props.C11Blowfish", "PasslibVerif.Props.C11Scrypt", "PasslibVerif.Props.C11Md4"]
+GEN_UNITS = ["Des", "Totp", "Blowfish", "Scrypt", "B64", "Md4", "CryptoDigest", "Saslprep"]
+LEAN_TARGETS = ["PasslibVerif.Props.C11", "PasslibVerif.Props.C11Blowfish", "PasslibVerif.Props.C11Scrypt", "PasslibVerif.Props.C11Md4", "PasslibVerif.Props.C11Saslprep"]
 ASSUMPTIONS = [
     "hashlib/OpenSSL digests, hashlib.pbkdf2_hmac and hashlib.scrypt are external; the Lean Spec/* transcriptions are validated against them on every run",
     "stringprep / unicodedata tables used by saslprep are CPython's (atoms)",
@@ -19,9 +19,15 @@ EXPLANATION = (
     "Theorems: passlib's table-driven salted multi-round DES = FIPS 46-3 construction for every key/block/salt/rounds (all tables reflected "
     "each run, 512 SPE entries + OR-linearity of IE/CF/PCXROT pinned in the kernel), key expansion/shrink inverse, parity ignored; "
     "compile_hmac = RFC 2104 for an abstract digest and every key length; pbkdf1 = RFC 8018. Correspondence: compiled model and specs vs "
-    "passlib.crypto.des, OpenSSL legacy DES-ECB, hashlib, passlib's md4/compile_hmac/pbkdf1/pbkdf2_hmac."
+    "passlib.crypto.des, OpenSSL legacy DES-ECB, hashlib, passlib's md4/compile_hmac/pbkdf1/pbkdf2_hmac. "
+    "SASLprep (Props.C11Saslprep), for every text and every normaliser: the statement-order model of passlib.utils.saslprep — driven by the table list, "
+    "mapping tables and bidi branch structure the translator reads from the source on every run, over the 13 stringprep tables reflected from the "
+    "interpreter — equals RFC 4013 read directly over RFC 3454 (mapping, prohibited output, the three-part bidi rule: passlib's first-character "
+    "shortcut is equivalent on every string); accepted output contains no prohibited character and is bidi-correct; the two asserts fire iff the "
+    "normaliser produced a B.1 / C.1.2 character first (impossible under NfkcClean, which is checked exhaustively on the interpreter); idempotent; "
+    "identity on printable ASCII; table facts (sorted, D.1 and D.2 disjoint, ten small tables literally the RFC's lists). Compiled model AND spec vs the real function."
 )
-ONLY_CORRESPONDENCE = ["saslprep (explored on the real code against an independent RFC 4013 reading)"]
+ONLY_CORRESPONDENCE = ["unicodedata.normalize(NFKC) inside saslprep (external: a parameter of the model; its one assumption, NfkcClean, is checked exhaustively on the interpreter)"]
 
 
 def struct_salsa(blk: bytes) -> str:
@@ -191,7 +197,12 @@ def correspond(ctx):
     for gen in (hmac_multipart_cases(rng, 40 if not ctx.thorough else 1500), bcrypt_core_cases(rng)):
         for tag, inp, ok, obs, exp in gen:
             o_mp.check(tag, ok, inp, obs, exp)
-    res = merge(s_des, s_spec, s_dig, s_mac, s_bf, s_sc, o_sasl, o_mp)
+    from . import c11_saslprep
+
+    s_sasl = Suite(ctx, "saslprep-model-and-spec-vs-passlib")
+    c11_saslprep.model_suite(ctx, s_sasl)
+    o_nfkc = c11_saslprep.nfkc_clean_oracle(ctx)
+    res = merge(s_des, s_spec, s_dig, s_mac, s_bf, s_sc, o_sasl, o_mp, s_sasl, o_nfkc)
     res["suites"]["bcrypt-core"]["bcrypt_wheel_cases"] = wheel_checked
     res["suites"]["des-spec-vs-passlib-and-openssl"]["openssl_pairs"] = ossl
     return res
